@@ -320,4 +320,70 @@ theorem putSorted_sorted {α : Type} (k : Nat) (v : α) (l : List (Nat × α)) (
         · subst h; simp only; omega
         · exact hs'.1 x h
 
+/-! ### key order -/
+
+theorem lexLt_append_of_lt : ∀ (A B s t : Bytes), A.length = B.length → lexLt A B = true → lexLt (A ++ s) (B ++ t) = true
+  | [], [], _, _, _, h => by simp [lexLt] at h
+  | [], _ :: _, _, _, hl, _ => by simp at hl
+  | _ :: _, [], _, _, hl, _ => by simp at hl
+  | a :: as, b :: bs, s, t, hl, h => by
+    simp only [lexLt, List.cons_append, Bool.or_eq_true, decide_eq_true_eq, Bool.and_eq_true, beq_iff_eq] at h ⊢
+    rcases h with h | ⟨h1, h2⟩
+    · exact Or.inl h
+    · exact Or.inr ⟨h1, lexLt_append_of_lt as bs s t (by simpa using hl) h2⟩
+
+theorem lexLt_append_same : ∀ (A s t : Bytes), lexLt (A ++ s) (A ++ t) = lexLt s t
+  | [], _, _ => rfl
+  | a :: as, s, t => by
+    simp only [List.cons_append, lexLt, Nat.lt_irrefl, decide_false, Bool.false_or, beq_self_eq_true, Bool.true_and]
+    exact lexLt_append_same as s t
+
+theorem beBytes_succ (k v : Nat) : beBytes (k + 1) v = beBytes k (v / 256) ++ [UInt8.ofNat (v % 256)] := by
+  simp [beBytes, leBytes]
+
+/-- big-endian keys order like the numbers they encode -/
+theorem beBytes_lt (k : Nat) : ∀ (a b : Nat), a < b → b < 256 ^ k → lexLt (beBytes k a) (beBytes k b) = true := by
+  induction k with
+  | zero => intro a b h1 h2; simp at h2; omega
+  | succ k ih =>
+    intro a b h1 h2
+    rw [beBytes_succ, beBytes_succ]
+    have hb : b / 256 < 256 ^ k := by
+      rw [Nat.pow_succ] at h2
+      exact Nat.div_lt_of_lt_mul (by rw [Nat.mul_comm]; exact h2)
+    by_cases hq : a / 256 < b / 256
+    · exact lexLt_append_of_lt _ _ _ _ (by simp [beBytes_length]) (ih _ _ hq hb)
+    · have he : a / 256 = b / 256 := by omega
+      rw [he, lexLt_append_same]
+      have hm : a % 256 < b % 256 := by omega
+      have h1 : (UInt8.ofNat (a % 256)).toNat = a % 256 := by simp
+      have h2 : (UInt8.ofNat (b % 256)).toNat = b % 256 := by simp
+      simp [lexLt, h1, h2, hm]
+
+theorem encodeClocks_sorted (clocks : List (Nat × List Ref)) (hs : Sorted clocks) (hb : ∀ x ∈ clocks, x.1 < 2 ^ 32) :
+    (encodeClocks clocks).Pairwise (fun a b => lexLt a.1 b.1 = true) := by
+  unfold encodeClocks
+  rw [List.pairwise_map]
+  refine List.Pairwise.imp_of_mem ?_ hs
+  intro x y hx hy hlt
+  exact beBytes_lt 4 x.1 y.1 hlt (by rw [pow256_4]; exact hb y hy)
+
+/-! ### metadata getters -/
+
+theorem fromSlice_bytesOfRef (r : Ref) : fromSlice (bytesOfRef r) = r := by
+  unfold fromSlice
+  have hl := bytesOfRef_length r
+  rw [take_self _ hashSize (by simpa [hashSize] using hl)]
+  simp only [hl, hashSize, Nat.sub_self, List.replicate_zero, List.append_nil]
+  exact refOfBytes_bytesOfRef r
+
+theorem metadata_getters (lc cnt : Nat) (h : Option Ref) (hlc : lc < 2 ^ 32) (hcnt : cnt < 2 ^ 64) :
+    getHighestClockValue (.value (uint32Key lc)) = .ok lc ∧
+    getNumberOfTransactions (.value (countBytes cnt)) = .ok cnt ∧
+    getHead (headBytes h) = .ok (h.getD 0) := by
+  refine ⟨bytesToClock_uint32Key lc hlc, bytesToCount_countBytes cnt hcnt, ?_⟩
+  cases h with
+  | none => rfl
+  | some r => simp [headBytes, getHead, fromSlice_bytesOfRef]
+
 end Nuts.C08.Codec
